@@ -7,6 +7,8 @@ NOTES = (
     "exit 2 for machinery failures. Known findings: KNOWN_FINDINGS.txt."
 )
 ENGINES = [
+    {"name": "Serde", "path": "spec/Serde.tla", "serves_properties": ["C12"],
+     "kind_free_text": "TLA+ model of serde.dump/load (pre-order flattening with parent index, arg name, array flag; rebuild through append/set) over the node store of Ast.tla, invariant RoundTrip on every store reachable by mutation histories; SerdeTrace.tla is the acceptor for recorded round trips of real trees"},
     {"name": "Scanner", "path": "spec/Scanner.tla", "serves_properties": ["C13"],
      "kind_free_text": "TLA+ model of the tokenizer's hand-maintained position counters (one action per way the cursor moves: _advance(i), blank skip, digit batch, alnum run, keyword fold, string fast path, escape pair, retreat) with reference RefLine/RefCol; also the generator of abstract texts; ScanTrace.tla is the acceptor for recorded tokenizer/parser runs"},
     {"name": "Schema", "path": "spec/Schema.tla", "serves_properties": ["C18"],
@@ -15,6 +17,13 @@ ENGINES = [
      "kind_free_text": "TLA+ model of the mutable Expression tree (node store, every branch of set/append/replace/pop, hash cache, deepcopy); TLC exhaustive + transition emission; AstTrace.tla evaluates the invariants on recorded real trees"},
 ]
 CHECKS = {
+    "C12": {
+        "engine": "Serde",
+        "design_ref": "DESIGN.md section 5, C12",
+        "technique": "TLA+ model of dump/load checked by TLC on every tree Ast.tla can reach (RoundTrip, 3 negative controls); model trees and corpus trees are round-tripped by the real code 4 ways (load(dump), via JSON text, pickle, copy) and each pair is validated by the TLA+ acceptor SerdeTrace",
+        "text": "Model level: for every store reachable within 3-4 mutations, load(dump(n)) has exactly n's shape. Conformance: ~10^5 model trees per quick run (replayed on real objects; the real dump relation is also compared with the model's) and ~1000 corpus/probe trees x dialects x {plain, annotated, qualified+annotated, with raw comments and contradicting meta} are sent through the four ways back; TLC compares original and result node by node (class, exact scalar values with their Python type, argument shape, exact type digest, comments, meta) and checks ==, same SQL in several dialects, JSON-serialisability of the dump and (for copy) node disjointness.",
+        "note": "Trusted: the projection props/c12.project_full. Absent vs empty-list arguments and None vs empty comments/meta are identified (dump drops them). SQL equality is sampled over 3-5 dialects per tree. One listed finding (DataType object stored in meta by annotate_types).",
+    },
     "C13": {
         "engine": "Scanner",
         "design_ref": "DESIGN.md section 5, C13",
